@@ -143,8 +143,41 @@ for i := 0; i < 2; i++ {
 	YIELD(*p + k)
 }
 RETNIL`, "partial-redeclaration"),
-		// (redeclaring a PARAMETER at the top of the body cannot be compared: in the reference rendering the body
-		// is a function literal, where `a, b :=` declares a new a by Go's own rules)
+		withFmt(Raw("scope-partial-redeclaration-of-parameter", `
+func §split(n int) (int, int) { return n / 10, n % 10 }
+func §gen(a int, err error) ITER[int] GENP[int](a int, err error){
+	get := func() int { if err != nil { return tr.R(1, -a) }; return tr.R(1, a) }
+	q, a := §split(a)
+	YIELD(q)
+	YIELD(get())
+	a, b := a+1, 2
+	YIELD(get() + b)
+	c, err := 3, fmt.Errorf("x")
+	YIELD(get() + c)
+	if tr.B(2) {
+		YIELD(0)
+	}
+	a, d := a*2, 1
+	YIELD(get() - d)
+	RETNIL
+}GENP
+func §E() { drv.Run[int](func() drv.It[int] { it := §gen(42, nil); return it }) }
+`, "partial-redeclaration", "redeclared-parameter")),
+		Raw("scope-partial-redeclaration-of-receiver-and-named-parameter-pointer", `
+type §acc struct{ n int }
+
+func (r §acc) gen(step int) ITER[int] GENP[int](r §acc, step int){
+	p := &r
+	ps := &step
+	YIELD(p.n + *ps)
+	r, k := §acc{r.n + 10}, 1
+	YIELD(p.n + k)
+	step, j := step*2, 2
+	YIELD(*ps + j)
+	RETNIL
+}GENP
+func §E() { drv.Run[int](func() drv.It[int] { it := (§acc{5}).gen(3); return it }) }
+`, "partial-redeclaration", "redeclared-parameter"),
 		G("scope-partial-redeclaration-without-yield-between", `
 YIELD(0)
 a := 1
